@@ -4,7 +4,7 @@ use super::*;
 use crate::verif_spec::fmt;
 use crate::verif_spec::src::Src;
 
-fn check_tileset_head(data: &[u8]) -> bool {
+pub(crate) fn check_tileset_head(data: &[u8]) -> bool {
     // flag FILE_INCLUDES_TILES (bit 1) is assumed off by the caller: pixel data goes through zlib (Engine X)
     let got = Tileset::<RawPixels>::parse_chunk(data, PixelFormat::Rgba);
     let decoded_ok = got.is_ok();
